@@ -31,4 +31,8 @@ def typeName (v : Nat) : String := Generated.Visitors.typeNames.getD v s!"?{v}"
 
 def sortedDedup (xs : List String) : List String := (xs.eraseDups.toArray.qsort (· < ·)).toList
 
+/-- format.formatFloatLiteral as `fmtFloat` (Model/C07.lean) transcribes it: strconv.FormatFloat(v, 'f', -1, 64) — never an exponent
+form, which the grammar could not read back (`1e+21`) — plus `.0` for integral values -/
+def expectedFormatFloatLiteral : String := "func formatFloatLiteral(value float64) string { formatted := strconv.FormatFloat(value, 'f', -1, 64) if math.IsInf(value, 0) || math.IsNaN(value) || strings.ContainsRune(formatted, '.') { return formatted } return formatted + \".0\" }"
+
 end Dawgs.C07.Inst
